@@ -166,7 +166,7 @@ package deb
 //
 //@ import "strconv"
 //
-//@ func writeControl(w io.Writer, data controlData) (err error)
+//@ inline func writeControl(w io.Writer, data controlData) (err error)
 //@   requires data.Info != nil
 //@   ensures [C02 C14 C15] control-fields: implies(err == nil, ghostStr(w, "out") == old(ghostStr(w, "out")) + debControlHead(data.Info, data.InstalledSize) + renderedRange(".Info.Deb.Fields") + "\n")
 //
@@ -198,14 +198,14 @@ package deb
 //@   requires info != nil
 //@   requires !ghostFlag("failed")
 //@   ensures [C09 C08 C03 C02] control-archive-members: implies(err == nil, globStr("tarManifestAtClose") ==
-//@       ctlItem("./control", 0o644, debControlHead(info, instSize/1024) + renderedRange(".Info.Deb.Fields") + "\n", info.MTime) +
-//@       ctlItem("./md5sums", 0o644, string(md5sums), info.MTime) +
-//@       ctlItem("./conffiles", 0o644, string(lastBytes("conffiles")), info.MTime) +
-//@       triggersItem(string(lastBytes("createTriggers")), info.MTime) +
-//@       scriptItem("./config", info.Deb.Scripts.Config, 0o755, info.MTime) +
-//@       scriptItem("./postinst", info.Scripts.PostInstall, 0o755, info.MTime) +
-//@       scriptItem("./postrm", info.Scripts.PostRemove, 0o755, info.MTime) +
-//@       scriptItem("./preinst", info.Scripts.PreInstall, 0o755, info.MTime) +
-//@       scriptItem("./prerm", info.Scripts.PreRemove, 0o755, info.MTime) +
-//@       scriptItem("./rules", info.Deb.Scripts.Rules, 0o755, info.MTime) +
-//@       scriptItem("./templates", info.Deb.Scripts.Templates, 0o644, info.MTime))
+//@       ctlItem("./control", 0o644, old(debControlHead(info, instSize/1024)) + renderedRange(".Info.Deb.Fields") + "\n", lastTime("github.com/goreleaser/nfpm/v2/internal/modtime.Get")) +
+//@       ctlItem("./md5sums", 0o644, string(md5sums), lastTime("github.com/goreleaser/nfpm/v2/internal/modtime.Get")) +
+//@       ctlItem("./conffiles", 0o644, string(lastBytes("conffiles")), lastTime("github.com/goreleaser/nfpm/v2/internal/modtime.Get")) +
+//@       triggersItem(string(lastBytes("createTriggers")), lastTime("github.com/goreleaser/nfpm/v2/internal/modtime.Get")) +
+//@       scriptItem("./config", info.Deb.Scripts.Config, 0o755, lastTime("github.com/goreleaser/nfpm/v2/internal/modtime.Get")) +
+//@       scriptItem("./postinst", info.Scripts.PostInstall, 0o755, lastTime("github.com/goreleaser/nfpm/v2/internal/modtime.Get")) +
+//@       scriptItem("./postrm", info.Scripts.PostRemove, 0o755, lastTime("github.com/goreleaser/nfpm/v2/internal/modtime.Get")) +
+//@       scriptItem("./preinst", info.Scripts.PreInstall, 0o755, lastTime("github.com/goreleaser/nfpm/v2/internal/modtime.Get")) +
+//@       scriptItem("./prerm", info.Scripts.PreRemove, 0o755, lastTime("github.com/goreleaser/nfpm/v2/internal/modtime.Get")) +
+//@       scriptItem("./rules", info.Deb.Scripts.Rules, 0o755, lastTime("github.com/goreleaser/nfpm/v2/internal/modtime.Get")) +
+//@       scriptItem("./templates", info.Deb.Scripts.Templates, 0o644, lastTime("github.com/goreleaser/nfpm/v2/internal/modtime.Get")))
